@@ -1929,6 +1929,34 @@ class EntityInst(Instance):
             ");",
         ]
 
+    @staticmethod
+    def _vector_kind(obj_type):
+        if not isinstance(obj_type, type):
+            return None
+        if issubclass(obj_type, Unsigned):
+            return "unsigned"
+        if issubclass(obj_type, Signed):
+            return "signed"
+        if issubclass(obj_type, BitVector):
+            return "std_logic_vector"
+        return None
+
+    @classmethod
+    def _actual_vector_kind(cls, actual):
+        # vector kind of the vhdl expression produced by format_target
+        obj_type = actual._root.type
+
+        for ref in actual._ref_spec:
+            if isinstance(ref, Offset):
+                if isinstance(obj_type, type) and issubclass(obj_type, Array):
+                    obj_type = obj_type.elemtype()
+                else:
+                    return None
+            elif not isinstance(ref, Slice):
+                return None
+
+        return cls._vector_kind(obj_type)
+
     def _port_map(self) -> list[str]:
         if len(self._ports) == 0:
             return []
@@ -1936,12 +1964,28 @@ class EntityInst(Instance):
         port_map: list[Tuple[str, str]] = []
 
         for port_name, port in self._entity.ports().items():
-            port_map.append(
-                (
-                    self._entity.port_name(port),
-                    self._scope.format_target(self._ports[port_name]),
-                )
-            )
+            actual = self._ports[port_name]
+            formal_str = self._entity.port_name(port)
+            actual_str = self._scope.format_target(actual)
+
+            # the vhdl type of a typed view (.unsigned/.signed/.bitvector)
+            # is the type of its root, add conversions so formal and actual match
+            formal_kind = self._vector_kind(type(port.get()))
+            actual_kind = self._actual_vector_kind(actual)
+
+            if (
+                formal_kind is not None
+                and actual_kind is not None
+                and formal_kind != actual_kind
+            ):
+                direction = port.direction()
+
+                if not direction.is_output():
+                    actual_str = f"{formal_kind}({actual_str})"
+                if not direction.is_input():
+                    formal_str = f"{actual_kind}({formal_str})"
+
+            port_map.append((formal_str, actual_str))
 
         line_end = [","] * (len(port_map) - 1) + [""]
 
